@@ -28,9 +28,9 @@ ENGLISH_INV = "InvCustodyCovers InvCustodyExact InvNetFeesNonNeg InvCollectorBac
 
 def _english_cfgs(tier):
     """(name, constants) of the MC_English runs."""
-    def k(gens, flag, generic, tm, nf0, maxbids, maxauc, maxt, bidders='{"u1", "u2"}'):
-        return ('Gens = %s  Flag = "%s"  Generic = %s  Tm0 = %s  Nf0 = %d  Fund = 30  MaxBids = %d  MaxAuc = %d  MaxT = %d  Bidders = %s  Emit = TRUE'
-                % (gens, flag, generic, tm, nf0, maxbids, maxauc, maxt, bidders))
+    def k(gens, flag, generic, tm, nf0, maxbids, maxauc, maxt, bidders='{"u1", "u2"}', esm="FALSE"):
+        return ('Gens = %s  Flag = "%s"  Generic = %s  Tm0 = %s  Esm = %s  Nf0 = %d  Fund = 30  MaxBids = %d  MaxAuc = %d  MaxT = %d  Bidders = %s  Emit = TRUE'
+                % (gens, flag, generic, tm, esm, nf0, maxbids, maxauc, maxt, bidders))
     if tier == "quick":
         return [("g1-surplus", k("{1}", "surplus", "FALSE", "TRUE", 45, 2, 1, 140)),
                 ("g1-debt", k("{1}", "debt", "FALSE", "TRUE", 5, 2, 1, 140)),
@@ -39,7 +39,9 @@ def _english_cfgs(tier):
                 ("g2-generic", k("{2}", "none", "TRUE", "TRUE", 45, 2, 1, 420)),
                 ("g2-surplus-notm", k("{2}", "surplus", "FALSE", "FALSE", 45, 2, 1, 420)),
                 ("g1-debt-notm", k("{1}", "debt", "FALSE", "FALSE", 5, 1, 1, 140)),
-                ("g2-dist", k("{2}", "dist", "FALSE", "TRUE", 45, 1, 1, 420))]
+                ("g2-dist", k("{2}", "dist", "FALSE", "TRUE", 45, 1, 1, 420)),
+                ("g1-surplus-esm", k("{1}", "surplus", "FALSE", "TRUE", 45, 1, 1, 140, esm="TRUE")),
+                ("g1-debt-esm", k("{1}", "debt", "FALSE", "TRUE", 5, 1, 1, 140, esm="TRUE"))]
     return [("g1-surplus", k("{1}", "surplus", "FALSE", "TRUE", 45, 3, 1, 140)),
             ("g1-debt", k("{1}", "debt", "FALSE", "TRUE", 5, 3, 1, 140)),
             ("g2-surplus", k("{2}", "surplus", "FALSE", "TRUE", 45, 2, 2, 620)),
@@ -53,6 +55,9 @@ def _english_cfgs(tier):
             ("g12-surplus", k("{1, 2}", "surplus", "FALSE", "TRUE", 45, 1, 2, 420)),
             ("g12-debt", k("{1, 2}", "debt", "FALSE", "TRUE", 5, 1, 2, 420)),
             ("g2-dist", k("{2}", "dist", "FALSE", "TRUE", 45, 1, 1, 420)),
+            ("g1-surplus-esm", k("{1}", "surplus", "FALSE", "TRUE", 45, 2, 1, 140, esm="TRUE")),
+            ("g1-debt-esm", k("{1}", "debt", "FALSE", "TRUE", 5, 2, 1, 140, esm="TRUE")),
+            ("g12-surplus-esm", k("{1, 2}", "surplus", "FALSE", "TRUE", 45, 1, 1, 420, esm="TRUE")),
             ("g2-surplus-3", k("{2}", "surplus", "FALSE", "TRUE", 35, 2, 1, 420, '{"u1", "u2", "u3"}'))]
 
 
@@ -151,6 +156,8 @@ def run(c):
     sa, sb = A["stats"], B["stats"]
     need = dict(acceptedBids=sa.get("acceptedBids", 0), outbids=sa.get("outbids", 0), rejectedBids=sa.get("rejectedBids", 0),
                 closesGen1=sa.get("closesGen1", 0), closesGen2=sa.get("closesGen2", 0), noTokenMintHooks=sa.get("noTokenMintHooks", 0),
+                shutdownEndsWithBid=sa.get("shutdownEndsWithBid", 0), shutdownEndsNoBid=sa.get("shutdownEndsNoBid", 0),
+                shutdownEndsSurplus=sa.get("shutdownEndsSurplus", 0), shutdownEndsDebt=sa.get("shutdownEndsDebt", 0),
                 deposits=sb.get("deposits", 0), cancels=sb.get("cancels", 0), withdraws=sb.get("withdraws", 0),
                 withdrawOver=sb.get("withdrawOver", 0), withdrawOtherDenom=sb.get("withdrawOtherDenom", 0),
                 fillsExact=sb.get("fillsExact", 0), fillsOver=sb.get("fillsOver", 0), fillsUnder=sb.get("fillsUnder", 0))
